@@ -585,17 +585,25 @@ econf_err econf_writeFile(econf_file *key_file, const char *save_to_dir,
   }
 
   // Write to file
-  for (size_t i = 0; i < key_file->length; i++) {
+  // Entries without a group have to be written before the first group. So
+  // they are written in the first pass and all other entries in the second one.
+  const char *last_group = NULL;
+  for (size_t n = 0; n < 2 * key_file->length; n++) {
+    size_t i = n % key_file->length;
+    bool no_group = !strcmp(key_file->file_entry[i].group, KEY_FILE_NULL_VALUE);
+    if (no_group != (n < key_file->length))
+      continue;
+
     // Writing group
-    if (!i || strcmp(key_file->file_entry[i - 1].group,
-                     key_file->file_entry[i].group)) {
-      if (i)
+    if (last_group == NULL || strcmp(last_group, key_file->file_entry[i].group)) {
+      if (last_group != NULL)
         fprintf(kf, "\n");
-      if (strcmp(key_file->file_entry[i].group, KEY_FILE_NULL_VALUE)) {
+      if (!no_group) {
 	char *group = addbrackets(key_file->file_entry[i].group);
 	fprintf(kf, "%s\n", group);
         free(group);
       }
+      last_group = key_file->file_entry[i].group;
     }
 
     // Writing heading comments
